@@ -244,6 +244,8 @@ func runRecAlg(c *hx.Ctx, r *hx.Rng, n int) {
 				op = "mergerecdesc"
 			}
 			line := c.Emit(op+" "+rowsText(nw)+" | "+rowsText(old), ans)
+			// the same case for the merge written with the decision functions translated from the source
+			c.Emit("mergesrc "+map[bool]string{true: "desc", false: "asc"}[desc]+" "+rowsText(nw)+" | "+rowsText(old), ans)
 			if want := specText(specCells(append(append([]arow{}, nw...), old...)), desc); ans != want {
 				c.Violation(line, "", fmt.Sprintf("%s(new=%s, old=%s) = %q, new-over-old says %q", op, rowsText(nw), rowsText(old), ans, want))
 			}
